@@ -133,11 +133,19 @@ def run(ck, ix, tier):
     divs = [b for b in walk_local(fi.node) if isinstance(b, ast.BinOp) and isinstance(b.op, ast.Div) and "_magnitude" in norm(b)]
     ck.floor("G-PROV", len(divs), 1, "magnitude division in __rtruediv__")
     for b in divs:
-        ck.check(norm(b.left) == "other_magnitude" and norm(b.right) == "self._magnitude", "G-PROV", "PlainQuantity.__rtruediv__|other/self", fi.loc(b), "other / self", f"`{norm(b)}` is not other / self")
+        dd_ = defs_of(fi)
+        lr_, rr_ = dd_.roots(b.left), dd_.roots(b.right)
+        of_other = lambda rs: any(r == "other" or r.startswith("other.") for r in rs)
+        of_self = lambda rs: any(r == "self" or r.startswith("self.") for r in rs)
+        ck.check(of_other(lr_) and not norm(b.left).endswith("._magnitude") and of_self(rr_) and not of_other(rr_) and norm(b.right).endswith("._magnitude"), "G-PROV", "PlainQuantity.__rtruediv__|other/self", fi.loc(b), "other / self", f"`{norm(b)}` is not (magnitude of other) / (magnitude of self)")
     fi = ix.func(PQ, "PlainQuantity.__rpow__")
     pows = [b for b in walk_local(fi.node) if isinstance(b, ast.BinOp) and isinstance(b.op, ast.Pow)]
     for b in pows:
-        ck.check(norm(b.left) == "other" and "_magnitude" in norm(b.right), "G-PROV", "PlainQuantity.__rpow__|other**self", fi.loc(b), "other ** self (dimensionless, root units)", f"`{norm(b)}` is not other ** magnitude")
+        dd_ = defs_of(fi)
+        rr_ = dd_.roots(b.right)
+        from .. import shape as _s6
+        rt_ = _s6.rnorm(b.right, fi.node)
+        ck.check(norm(b.left) == "other" and rt_.endswith("magnitude") and "to_root_units()" in rt_ and "self" in rt_, "G-PROV", "PlainQuantity.__rpow__|other**self", fi.loc(b), "other ** self (dimensionless, root units)", f"`{norm(b)}` is not other ** (root-unit magnitude of self)")
     cfg = cfg_of(fi)
     gates = [n.id for n in cfg.nodes if n.kind == "test" and norm(n.ast) == "not self.dimensionless"]
     for g in gates:
@@ -181,7 +189,16 @@ def run(ck, ix, tier):
              "__truediv__ no longer routes through _truedivide_cast_int when *either* operand has an int magnitude (int/int would become a float in Decimal/Fraction registries)")
     fi = ix.func(PQ, "PlainQuantity._truedivide_cast_int")
     src = norm(fi.node)
-    ck.check("t = self._REGISTRY.non_int_type" in src and "a = t(a)" in src and "b = t(b)" in src and "operator.truediv(a, b)" in src, "G-PROV", "PlainQuantity._truedivide_cast_int|casts-ints-to-non_int_type", fi.loc(),
+    dd_ = defs_of(fi)
+    tds = [c for c in walk_local(fi.node) if isinstance(c, ast.Call) and norm(c.func) in ("operator.truediv", "truediv") and len(c.args) == 2]
+    okt = len(tds) == 1 and [norm(x) for x in tds[0].args] == ["a", "b"]
+    from .. import shape as _s5
+    for p_ in ("a", "b"):
+        casts = [a_ for a_ in walk_local(fi.node) if isinstance(a_, ast.Assign) and norm(a_.targets[0]) == p_ and isinstance(a_.value, ast.Call) and [norm(x) for x in a_.value.args] == [p_]]
+        okp = len(casts) == 1 and "self._REGISTRY.non_int_type" in (dd_.roots(casts[0].value.func) | {norm(casts[0].value.func)}) \
+            and _s5.holds_at(casts[0], fi.node, lambda t_, p_=p_: norm(t_) == f"isinstance({p_}, int)", True)
+        okt = okt and okp
+    ck.check(okt, "G-PROV", "PlainQuantity._truedivide_cast_int|casts-ints-to-non_int_type", fi.loc(),
              "ints are cast to non_int_type before dividing", "_truedivide_cast_int no longer casts both int operands to the registry's non_int_type")
 
     # ------------------------------------------------------------ G-OWN: functional forms write nothing, in-place forms write only self
